@@ -64,7 +64,7 @@ def rules(chk, db):
     chk.rule('E', 'refusal returns ReadLimitReached and has no effect', minimum=3)
     chk.rule('C', 'readers copy exactly need bytes from buffer[pos]; pos += need', minimum=5)
     chk.rule('NR.r', 'no narrowing conversion of a decoded length before it is validated', minimum=10)
-    chk.rule('TM', 'every decoder loop has a constant bound or consumes input per iteration', minimum=6)
+    chk.rule('TM', 'every decoder loop has a constant bound or consumes input per iteration', minimum=4)
     ids = {'T': 'T', 'G': 'G', 'E': 'E', 'C': 'C'}
     for rec in ('nop::BufferReader', 'nop::PedanticBufferReader'):
         rwrules.check_buffer_class(chk, db, rec, ids)
